@@ -45,6 +45,7 @@ def _plan_nothreads(tier: str, seed: int):
              "timeout": 3400} for i in range(16)]
 
 
+CLONE = [0]
 SHIPPED_BY_N = {12: ["nug12", "chr12c", "had12", "tai12a"]}
 
 EDGES = [127, 128, 255, 256, 32767, 32768, 65535, 65536, 2 ** 31 - 1, 2 ** 31,
@@ -228,6 +229,13 @@ def judge_instance(ctx, inst, F, D, case, tag, all_perms):
         want = sum(F[i][j] * D[p[i]][p[j]] for i in range(n)
                    for j in range(n))
         c = dict(case, perm=p)
+        CLONE[0] += 1
+        if CLONE[0] % 64 == 0 and n <= 40:
+            from vlib.clones import judge_clones
+            judge_clones(ctx, obj, lambda o: (o.evaluate(x), o.lower_bound(),
+                                              o.upper_bound()),
+                         (want, obj.lower_bound(), obj.upper_bound()),
+                         "qap-value", c)
         if v != want or isinstance(v, (bool, float)):
             ctx.violation("value-differs",
                           f"QAP objective = {v!r}, flow-distance sum = {want}"
